@@ -6,15 +6,15 @@ CONSTANTS
  Writers = {w1}
  Safe = TRUE
  KeepN = 1
- MaxEp = 7
- MaxSid = 4
+ MaxEp = 8
+ MaxSid = 5
  WithReader = FALSE
  WithCopy = FALSE
  WithMerger = TRUE
  WithPurge = TRUE
  WithMemMerge = FALSE
  MaxMergeInputs = 2
- AsyncRelease = TRUE
+ AsyncRelease = FALSE
   WithMergeFail = TRUE
  MaxOpens = 2
 CONSTRAINT Bound
